@@ -22,6 +22,7 @@ import Nstd.Codec.Spec
   specifications the theorems are stated against are themselves tested):
     spec-utf8 <start> <count>  -> `spec-utf8 <digest of the concatenated Spec.utf8 encodings>`
     spec-b64 <bytes>           -> `spec-b64 <Spec.rfc4648Encode>`
+    spec-b64d <bytes>          -> `spec-b64d <Spec.b64Decode>`
     spec-hex <bytes>           -> `spec-hex <Spec.upperHex>`
     spec-wf <bytes>            -> `spec-wf <Spec.wellFormed>`
     spec-dec <decimal>         -> `spec-dec <decDigits as text> <Spec.decimalValue of it>`
@@ -211,6 +212,10 @@ def stepLine (st : Unit) (ws : List String) : Unit × String :=
   | ["spec-b64", d] =>
     match Nstd.Common.fromHex d with
     | some bs => s!"spec-b64 {toHex (Spec.rfc4648Encode bs)}"
+    | none => "bad-op"
+  | ["spec-b64d", d] =>
+    match Nstd.Common.fromHex d with
+    | some bs => s!"spec-b64d {toHex (Spec.b64Decode bs)}"
     | none => "bad-op"
   | ["spec-hex", d] =>
     match Nstd.Common.fromHex d with
